@@ -41,11 +41,11 @@ class Rep:
             if v is None:
                 return ("inf",)
             if isinstance(v, tuple) and len(v) == 2:
-                return ("fin", _rat(v[0]), _rat(v[1]))
+                return ("fin", _rat(v[0], self.cls.tag), _rat(v[1], self.cls.tag))
             raise AnalysisError(f"affine point value {v!r}")
         if not (isinstance(v, tuple) and len(v) == 3):
             raise AnalysisError(f"point value {show(v)[:80]} is not a coordinate triple")
-        X, Y, Z = (_rat(c) for c in v)
+        X, Y, Z = (_rat(c, self.cls.tag) for c in v)
         if self.kind == "proj":
             z = st.is_zero(Z)
             if z is True:
@@ -75,12 +75,50 @@ class Rep:
         return (X / (Z * Z), Y / (Z * Z * Z))
 
 
-def _rat(c):
+class ConcreteCoord(AnalysisError):
+    """a result coordinate is an object of a concrete field class although the operands are symbolic (a module constant
+    selected by a type dispatch): decidable only in a run typed with the operands' field class"""
+
+
+def _const_of_instance(c):
+    """integer value of a concrete field object that is a base-field constant (c, 0, …, 0), else None"""
+    from .interp import Instance
+    if not isinstance(c, Instance):
+        return None
+    if "n" in c.attrs and isinstance(c.attrs["n"], int):
+        return c.attrs["n"]
+    cs = c.attrs.get("coeffs")
+    if isinstance(cs, tuple) and cs:
+        vals = []
+        for x in cs:
+            if isinstance(x, Instance) and isinstance(x.attrs.get("n"), int):
+                vals.append(x.attrs["n"])
+            elif isinstance(x, int) and not isinstance(x, bool):
+                vals.append(x)
+            else:
+                return None
+        if not any(vals[1:]):
+            return vals[0]
+    return None
+
+
+def _rat(c, tag=None):
     if isinstance(c, FieldSym):
         return c.r
     if isinstance(c, int):
         return Rat(Poly.const(c))
+    k = _const_of_instance(c)
+    if k is not None:
+        if tag is None:
+            raise ConcreteCoord(f"coordinate {c!r} is an object of a concrete field class")
+        if c.cls is not tag:
+            raise WrongField(f"a coordinate of class {c.cls.qualname} is returned for operands over {tag.qualname}")
+        return Rat(Poly.const(k))
     raise AnalysisError(f"coordinate {c!r} is not a field element")
+
+
+class WrongField(Exception):
+    pass
 
 
 # ---------------------------------------------------------------------------
@@ -255,7 +293,11 @@ def check_function(world, call, rep_in, rep_out, combos, table, result_kind="poi
                                           "equal as rational functions" if z is True else
                                           f"residue {st.norm(got - expected[1]).n!r} (path {pl})", p))
                     continue
-                img = rep_out.image(p.value, st)
+                try:
+                    img = rep_out.image(p.value, st)
+                except WrongField as wf:
+                    obs.append(Obligation(cname, name, False, f"{wf} (path {pl})", p))
+                    continue
                 if expected == ("inf",):
                     ok = img == ("inf",)
                     obs.append(Obligation(cname, name, ok,
